@@ -211,8 +211,14 @@ def project_call(c: Dict[str, Any], tid: int, api: Optional[Dict[str, Any]] = No
                          and abs((fr.velocity >> m.Velocity.FPS) - mv_expected) <= 1e-9 * max(1.0, mv_expected)
                          and abs((fr.height >> m.Distance.Foot) - (-math.cos(cant) * sh)) <= 1e-9 * max(1.0, abs(sh))
                          and abs((fr.windage >> m.Distance.Foot) - (-math.sin(cant) * sh)) <= 1e-9 * max(1.0, abs(sh)))
+    # API boundary: the range / step the caller asked for (feet) against what reached the solver
+    req_kept = True
+    if api.get("range_ft_asked") is not None:
+        req_kept = abs(maxr - api["range_ft_asked"]) <= 1e-9 * max(1.0, abs(api["range_ft_asked"]))
+        if api.get("step_ft_asked") is not None and rec:
+            req_kept = req_kept and abs(step - api["step_ft_asked"]) <= 1e-9 * max(1.0, abs(api["step_ft_asked"]))
     lines: List[Dict[str, Any]] = [{
-        "tid": tid, "ev": "Begin", "rec": rec, "timed": timed, "extra": extra, "Klo": Klo, "Khi": Khi,
+        "tid": tid, "ev": "Begin", "rec": rec, "timed": timed, "extra": extra, "Klo": Klo, "Khi": Khi, "requestKept": bool(req_kept),
         "stepGEmax": bool(step >= max_step * (1 - 1e-12)),
         # the first multiple beyond the range may be recorded only if it lies within one integration step of it
         "beyondOK": bool(rec and Klo * step <= maxr + max_step + band(maxr)), "muzzleSide": 1 if y0 >= 0 else -1,
